@@ -14,11 +14,13 @@ THEOREMS = ["Mpir.AliasMem.ofInts_ok",
             "Mpir.AliasMem.tdiv_qr_ptr_spec", "Mpir.AliasMem.tdiv_qr_alias", "Mpir.AliasMem.tdiv_q_ptr_spec", "Mpir.AliasMem.tdiv_r_ptr_spec",
             "Mpir.AliasMem.cfdiv_qr_ptr_spec", "Mpir.AliasMem.cfdiv_qr_alias", "Mpir.AliasMem.cfdiv_q_ptr_spec", "Mpir.AliasMem.cfdiv_r_ptr_spec",
             "Mpir.AliasMem.mod_ptr_spec", "Mpir.AliasMem.divexact_ptr_spec", "Mpir.AliasMem.div3_alias",
-            "Mpir.AliasMem.mul_2exp_ptr_spec", "Mpir.AliasMem.tdiv_q_2exp_ptr_spec"]
+            "Mpir.AliasMem.mul_2exp_ptr_spec", "Mpir.AliasMem.tdiv_q_2exp_ptr_spec",
+            "Mpir.AliasMem.mpz_and_ptr_spec", "Mpir.AliasMem.mpz_xor_ptr_spec", "Mpir.AliasMem.logic_ptr_spec", "Mpir.AliasMem.mpz_com_ptr_spec"]
 PINS = [("mpz/tdiv_qr.c", None), ("mpz/tdiv_q.c", None), ("mpz/tdiv_r.c", None),
         ("mpz/fdiv_qr.c", None), ("mpz/cdiv_qr.c", None), ("mpz/fdiv_q.c", None), ("mpz/cdiv_q.c", None),
         ("mpz/fdiv_r.c", None), ("mpz/cdiv_r.c", None), ("mpz/mod.c", None), ("mpz/divexact.c", None),
         ("mpz/mul_2exp.c", None), ("mpz/tdiv_q_2exp.c", None),
+        ("mpz/and.c", None), ("mpz/ior.c", None), ("mpz/xor.c", None), ("mpz/com.c", None),
         ("mpz/realloc.c", None), ("gmp-impl.h", "MPZ_REALLOC"), ("gmp-impl.h", "MPZ_TMP_INIT"),
         ("mpz/set.c", None), ("mpz/aors.h", None), ("mpz/aors_ui.h", None)]
 TRUSTED = ["hand-written pointer-level model lean/Mpir/Model/AliasMem.lean (tied by the ops alias_* on every index assignment: values, ALLOC and "
@@ -108,3 +110,26 @@ def gen_ops(rng, tier, ctx=None):
                     if rng.random() < 0.15: v[u] = rng.choice([1, -1]) * ((1 << (64 * rng.choice([1, 2, 3]))) - 1)
                     cnt = rng.choice([0, 1, 63, 64, 65, 127, 128, 129, 191, 192, rng.randrange(0, 64 * (big + 3))])
                     yield "alias_%s %x %x %x %s" % (fn, w, u, cnt, " ".join(hx(x) for x in v))
+    # bit operations: every (res, op1, op2), all four sign cases, sizes equal / longer / shorter, low zero limbs (borrow through
+    # |op| - 1), all-ones (carry into a new limb), result that does not fit the old block of an aliased res
+    def bitval(lim):
+        k = rng.randrange(6)
+        if k == 0: v = _mag(rng, lim)
+        elif k == 1: v = (1 << (64 * lim)) - 1
+        elif k == 2: v = 1 << (64 * (lim - 1)) if lim else 0
+        elif k == 3: v = (_mag(rng, lim) >> (64 * (lim // 2))) << (64 * (lim // 2))
+        elif k == 4: v = (1 << (64 * lim)) - (1 << rng.randrange(0, 64 * lim)) if lim else 0
+        else: v = _mag(rng, lim)
+        return v if rng.random() < 0.5 else -v
+    for fn in ("and", "ior", "xor"):
+        for w in range(4):
+            for a in range(4):
+                for b in range(4):
+                    for _ in range(reps * 3):
+                        v = [bitval(rng.choice([0, 1, 1, 2, 3, 4, big])) for _ in range(4)]
+                        yield "alias_%s %x %x %x 0 %s" % (fn, w, a, b, " ".join(hx(x) for x in v))
+    for w in range(4):
+        for a in range(4):
+            for _ in range(reps * 6):
+                v = [bitval(rng.choice([0, 1, 1, 2, 3, big])) for _ in range(4)]
+                yield "alias_com %x %x 0 0 %s" % (w, a, " ".join(hx(x) for x in v))
